@@ -231,11 +231,24 @@ impl<'a> AnyCache<'a> {
         }
 
         let load_asset = || (typ.inner.load)(self, id);
-        let (entry, deps) = if let Some(reloader) = self.reloader() {
-            records::record(reloader, load_asset)
-        } else {
-            log::warn!("No reloader in hot-reloading context");
-            (load_asset(), Dependencies::empty())
+
+        // A panic in a loader must not kill the hot-reloading thread (callers
+        // of `hot_reload` would wait for its answer forever): treat it as a
+        // failed reload.
+        let result = std::panic::catch_unwind(std::panic::AssertUnwindSafe(|| {
+            if let Some(reloader) = self.reloader() {
+                records::record(reloader, load_asset)
+            } else {
+                log::warn!("No reloader in hot-reloading context");
+                (load_asset(), Dependencies::empty())
+            }
+        }));
+        let (entry, deps) = match result {
+            Ok(res) => res,
+            Err(_) => {
+                log::warn!("Panic while reloading \"{}\"", handle.id());
+                return None;
+            }
         };
         match entry {
             Ok(e) => {
